@@ -97,6 +97,19 @@ CHECKS = {
             "decided by a counting cap on the framer. Complete over n and the indices, sampled over header values.",
             "Output is read with COLUMNS=220 so that rich neither wraps nor elides cells; negative indices are not claimed.",
             "DESIGN.md 3/C19"),
+    "C08": ("exploration",
+            "Hypothesis-generated calibrators, context lists, enumerations and raw values (every knot, end point and "
+            "adjacent float queried) against an exact rational (Fraction) reference evaluation and a reference "
+            "selection rule",
+            "Polynomial and spline calibrators (orders 0 and 1, both extrapolate settings, constructor and XML routes) "
+            "are queried at every knot, both end points, the adjacent floats, inside, just outside and far outside the "
+            "range; numeric encodings with up to three overlapping context calibrators and an optional default are "
+            "decoded on packets where none, one or several contexts match; enumerated and boolean types are decoded "
+            "with calibrators attached, falsy keys and unlisted values. Sampled with a stated tolerance for general "
+            "coefficients and exact equality where the result is a knot value.",
+            "Finite queries and coefficients with all terms and slopes within 1e300; own-value references in context "
+            "matches use the raw selector.",
+            "DESIGN.md 3/C08"),
 }
 
 PENDING_REASON = "check not built yet in this round (planned, see DESIGN.md section 3); nothing is claimed for it"
